@@ -13,7 +13,7 @@ CODE = ["yowsup/layers/network/layer.py:YowNetworkLayer.*", "yowsup/layers/auth/
         "yowsup/layers/protocol_iq/layer.py:waitPong/gotPong/onAuthed/stop_thread/YowPingThread.run", "yowsup/layers/axolotl/layer_base.py + layer_control.py:on_connected/on_disconnected",
         "yowsup/stacks/yowstack.py:execDetached/loop", "yowsup/layers/__init__.py:emitEvent/broadcastEvent"]
 BOUNDS = {"quick": "all event histories of length <= 4 over {connect request, connected, socket error, peer close, disconnect request, success, failure, stream error (conflict/ack/other), ping tick, pong} "
-                   "x reconnect option on/off (guards: events only in states where they can occur)", "thorough": "histories of length <= 6"}
+                   "x reconnect option on/off (guards: events only in states where they can occur)", "thorough": "histories of length <= 8 (10 after an establishment prefix, 11 after login)"}
 OUTSIDE = ["the Noise handshake and transport (C04, not applicable)", "real sockets and real threads (dispatcher double; keep-alive thread body run inline per tick)", "histories longer than the bound"]
 ASSUMPTIONS = ["the stack's loop runs after every event (detached events are delivered then)", "a dispatcher reports disconnect() by calling onDisconnected (as the asyncore and socket dispatchers do)"]
 EXPLANATION = "solver-driven bounded exploration of event histories on the real lifecycle layers against a ghost model of the statement"
@@ -279,12 +279,12 @@ def h_history(ctx, n, prefix=()):
 def cases(tier):
     q = tier == "quick"
     up = ("connect-request", "connected")
-    cs = [dict(name="history[len<=%d]" % (6 if q else 7), fn=h_history, args=(6 if q else 7,), max_paths=2000000, timeout_s=900 if q else 3400, keep_samples=8, weight=100)]
+    cs = [dict(name="history[len<=%d]" % (6 if q else 8), fn=h_history, args=(6 if q else 8,), max_paths=2000000, timeout_s=900 if q else 3400, keep_samples=8, weight=100)]
     # longer histories after a fixed establishment prefix (the prefix itself is covered by the unconstrained case)
     for third in ("success", "socket-error", "peer-close", "disconnect-request", "failure", "stream-error-conflict", "stream-error-ack", "stream-error-other"):
-        cs.append(dict(name="history[prefix=up+%s,len<=%d]" % (third, 7 if q else 9), fn=h_history, args=(7 if q else 9, up + (third,)), max_paths=2000000,
+        cs.append(dict(name="history[prefix=up+%s,len<=%d]" % (third, 7 if q else 10), fn=h_history, args=(7 if q else 10, up + (third,)), max_paths=2000000,
                        timeout_s=900 if q else 3400, keep_samples=6, weight=200 if third == "success" else 100))
     if not q:
         for fourth in ("ping-tick", "peer-close", "stream-error-ack", "disconnect-request"):
-            cs.append(dict(name="history[prefix=up+success+%s,len<=9]" % fourth, fn=h_history, args=(9, up + ("success", fourth)), max_paths=4000000, timeout_s=3400, keep_samples=6, weight=400))
+            cs.append(dict(name="history[prefix=up+success+%s,len<=11]" % fourth, fn=h_history, args=(11, up + ("success", fourth)), max_paths=4000000, timeout_s=3400, keep_samples=6, weight=400))
     return cs
